@@ -56,7 +56,7 @@ def cases(ctx):
             {"id": "reg-755-c.gox", "kind": "reg", "mode": 0o755, "name": "c.gox", "src": GOX_SRC},
             {"id": "reg-444-d.xgo", "kind": "reg", "mode": 0o444, "name": "d.xgo", "src": XGO_SRC},
             {"id": "reg-664-big.xgo", "kind": "reg", "mode": 0o664, "name": "big.xgo",
-             "src": XGO_SRC + "".join("func  g%d( ){println( %d )}\n" % (i, i) for i in range(4000))},
+             "src": "".join("func  g%d( ){println( %d )}\n" % (i, i) for i in range(4000)) + XGO_SRC},
             {"id": "sym-604-m.go", "kind": "sym", "mode": 0o604, "name": "m.go", "src": GO_SRC},
         ]
     return cs
